@@ -15,6 +15,6 @@ echo "seed=$P check=$ID tier=$TIER exit=$RC secs=$((END-START)) $(grep -c '^VIOL
 grep -A3 '^VIOLATION' /tmp/seedtest.$$.log | head -12
 [ $RC -eq 2 ] && tail -5 /tmp/seedtest.$$.log
 rm -f /tmp/seedtest.$$.log
-cd /repo && git checkout -- . && git status --porcelain --untracked-files=no
+cd /repo && git checkout -- . && find /repo/fclones -name '*.rej' -o -name '*.orig' | xargs -r rm -f; git status --porcelain --untracked-files=no
 /verif/build.sh >/dev/null 2>&1   # binaries back in sync with the unchanged tree
 exit $RC
